@@ -143,7 +143,7 @@ func init() {
 		}
 		x.Comment("snapshot/sink.go (*Sink).Close: the after-close function (fingerprint) runs after the rename that installs the snapshot")
 		if fd := x.Func("snapshot", "Sink", "Close"); fd != nil {
-			x.DefStrings("sinkCloseSteps", x.callSeq(fd.Body, "sd.MoveWALFilesTo", "s.sinkW.Close", "writeMeta", "os.Rename", "s.stc.SetDueNext", "s.afterClose"))
+			x.DefStrings("sinkCloseSteps", x.callSeq(fd.Body, "s.stc.DueNext", "sd.MoveWALFilesTo", "s.sinkW.Close", "writeMeta", "os.Rename", "s.stc.SetDueNext", "s.stc.ClearFullNeeded", "s.afterClose"))
 		} else {
 			x.DefStrings("sinkCloseSteps", nil)
 		}
@@ -235,9 +235,9 @@ func init() {
 
 		// ---- C01: write endpoints and the rewriter ----------------------------------
 		x.Comment("http/service.go: per write endpoint, the rewriter / proxy calls in source order")
-		for _, h := range []struct{ def, fn string }{{"execEndpoint", "handleExecute"}, {"requestEndpoint", "handleRequest"}, {"queuedExecEndpoint", "queuedExecute"}, {"executeEndpoint", "execute"}} {
+		for _, h := range []struct{ def, fn string }{{"execEndpoint", "handleExecute"}, {"requestEndpoint", "handleRequest"}, {"queuedExecEndpoint", "queuedExecute"}, {"executeEndpoint", "execute"}, {"queryEndpoint", "handleQuery"}} {
 			if fd := x.Func("http", "Service", h.fn); fd != nil {
-				x.DefStrings(h.def, x.callSeq(fd.Body, "sql.Process", "s.proxy.Execute", "s.proxy.Request", "s.stmtQueue.Write", "s.queuedExecute", "s.execute"))
+				x.DefStrings(h.def, x.callSeq(fd.Body, "sql.Process", "s.proxy.Execute", "s.proxy.Request", "s.proxy.Query", "s.stmtQueue.Write", "s.queuedExecute", "s.execute"))
 			} else {
 				x.DefStrings(h.def, nil)
 			}
